@@ -15,7 +15,7 @@ def check(ctx, rep):
         "takes one id and continues into its members. R20.4 raises reachable from dot_format. R20.5 the "
         "emitted fragments are statements of the DOT subset and braces balance on every path. R20.6 styles are "
         "per job: no mutable object bound at class level is mutated through an instance or an alias of it. R20.7 "
-        "the id templates yield DOT identifiers (zero padding only, no white space). R20.9 the label getters return the user's text unmodified. R20.8 (= R19.6) what is drawn is what was registered: a job object (an empty nested scheduler is falsy) is never used as a boolean by the construction API.")
+        "the id templates yield DOT identifiers (zero padding only, no white space). R20.9 the label getters return the user's text unmodified. R20.8 (= R19.6) what is drawn is what was registered: a job object (an empty nested scheduler is falsy) is never used as a boolean by the construction API. R20.10 the functions that render (dot, labels, styles, listings) keep no state from one call to the next: no mutable default argument (a style object built once would carry the colour of the previous job), no global.")
     rep.declined = ["validity for every label string beyond the quoter's contract; the flag->style constants; "
                     "what `dot` renders"]
     rep.trusted = ["DOT grammar subset (graph, subgraph, node, edge, attribute list)"]
@@ -24,3 +24,5 @@ def check(ctx, rep):
     dotrules.id_alphabet(ctx, rep, "R20.7")
     dotrules.labels_verbatim(ctx, rep, "R20.9")
     common.job_truthiness(ctx, rep, "R20.8", [ctx.prog.supplier(ctx.roles.jobbase, "requires")] + (list(ctx.roles.sequence.methods.values()) if ctx.roles.sequence else []) + [ctx.prog.supplier(ctx.roles.sched, "update"), ctx.prog.supplier(ctx.roles.sched, "add")])
+    import re as _re
+    common.no_state_across_calls(ctx, rep, "R20.10", [f for f in ctx.prog.all_functions() if _re.search(r"dot|label|list|repr|style|graph|short", f.name)])
